@@ -190,6 +190,11 @@ fn shrink_cli(
             let mut c = cur.clone();
             c.doc_name = "min".into();
             c.doc = r#"{"$schema":"http://json-schema.org/draft-07/schema#","title":"Min","type":"object","properties":{"a":{"type":"string"}}}"#.into();
+            // a fault that is positioned inside the document stays inside the smaller one
+            match &mut c.fault {
+                Fault::InputTruncated { at } | Fault::InputBadUtf8 { at } => *at = std::cmp::min(*at, c.doc.len() / 2),
+                _ => {}
+            }
             cands.push(c);
         }
         for c in cands {
